@@ -305,6 +305,15 @@ def run_point(res, fmt, cfg, sb, st, mode, at, enc, stale_variants, states, proj
     if mode == "crash" and raised is None:
         # the point after the last operation: the save completed; the process dies afterwards
         on_crash(shim)
+    if mode == "crash" and raised not in (None, "crash"):
+        # no fault was injected before the crash point, yet the save itself failed
+        last = shim.ops[-1][0] if shim.ops else "-"
+        res.oracle_failures.append({
+            "key": {"kind": "save-raises-without-fault", "fmt": fmt, "cfg": cfg, "staleBak": sb, "staleTmp": st},
+            "what": f"save_sensors raised ({raised}) although no operation was made to fail; prior files: main={cfg} "
+                    f"stale backup={sb} stale temp={st}; last operation reached: {last}",
+            "replay": {"fmt": fmt, "cfg": cfg, "staleBak": sb, "staleTmp": st, "mode": "crash", "at": at}})
+        return
 
     def cls_files(f):
         out = []
